@@ -127,7 +127,10 @@ def workload(case: dict, root_dir: str, on_root_only_fs: bool = True):
     if parallel.on_root():
         with np.errstate(all="ignore"):
             s = cfs[0].sample()
+            den_member = cfs[0].rr if cfs[0].rr is not None else cfs[0].dr
+            den = den_member.sample_patch_sum()
         out["sample_data"], out["sample_samples"] = _arr(s.data), _arr(s.samples)
+        out["den_data"], out["den_samples"] = _arr(den.data), _arr(den.samples)
     if kind == "pipeline_io":
         cfs[0].to_file(root / "cf.hdf5")
         back = CorrFunc.from_file(root / "cf.hdf5")
